@@ -508,6 +508,24 @@ def eval_rules(arch_tree: ast.AST, enc_tree: ast.AST, dns_pattern: str):
         for i, what in ((0, "password"),):
             ok = len(kp) > i and kp[i] in body_names
             yield ("ob", "C33.R2", f"kdf-depends-on:{what}", f"the derived key depends on the {what}", ok, "e", rets[0] if rets else kfn, kfn, f"`{kp[i] if len(kp) > i else '?'}` does not reach the derived key")
+    # decrypt / encrypt / the key derivation are functions of their arguments alone: a module-level table or cache that one
+    # call fills and a later call reads makes the outcome of decrypt(data, password) depend on earlier calls, not on the password
+    mutable_globals = {}
+    for n in enc_tree.body:
+        tg = n.targets[0] if isinstance(n, ast.Assign) and len(n.targets) == 1 else (n.target if isinstance(n, ast.AnnAssign) else None)
+        val = getattr(n, "value", None)
+        if isinstance(tg, ast.Name) and val is not None and isinstance(val, (ast.Dict, ast.List, ast.Set, ast.Call, ast.DictComp, ast.ListComp, ast.SetComp)):
+            mutable_globals[tg.id] = n
+    pure_fns = [("encrypt", enc), ("decrypt", dec)] + ([(kname, efuncs[kname])] if kname in efuncs else [])
+    for role, fn_ in pure_fns:
+        local = {a.arg for a in fn_.args.args + fn_.args.kwonlyargs} | {t.id for x in ast.walk(fn_) if isinstance(x, (ast.Assign, ast.AnnAssign)) for t in ast.walk(x.targets[0] if isinstance(x, ast.Assign) else x.target) if isinstance(t, ast.Name) and isinstance(t.ctx, ast.Store)}
+        declared = {g for x in ast.walk(fn_) if isinstance(x, ast.Global) for g in x.names}
+        used = sorted({x.id for x in ast.walk(fn_) if isinstance(x, ast.Name) and x.id in mutable_globals and (x.id not in local or x.id in declared)})
+        cached = [ast.unparse(d) for d in fn_.decorator_list if "cache" in ast.unparse(d)]
+        okp = not used and not declared and not (cached and role != kname)
+        yield ("ob", "C33.R2", f"pure:{role}", f"`{role}` depends on its arguments only (no module-level table, cache or global it reads or fills)", okp, "e",
+               mutable_globals[used[0]] if used else fn_, fn_,
+               f"`{role}` uses module-level state {used or sorted(declared) or cached}: after one successful call the result no longer depends on the password given")
     ad_w = ast.unparse(LW["aead"].args[2]) if len(LW["aead"].args) > 2 else "None"
     ad_r = ast.unparse(LR["aead"].args[2]) if len(LR["aead"].args) > 2 else "None"
     yield ("ob", "C33.R2", "associated-data", "encrypt and decrypt pass the same associated data", ad_w == ad_r, "e", LR["aead"], dec, f"{ad_w} vs {ad_r}")
@@ -664,6 +682,9 @@ _SY = '            elif name.endswith(".secret.yaml"):\n                deploy_n
 _Y = '            elif name.endswith(".yaml"):\n                deploy_name = name.removesuffix(".yaml")\n                cr_files[deploy_name] = yaml.safe_load(content)\n'
 _MJ = '            elif name.endswith(".meta.json"):\n                deploy_name = name.removesuffix(".meta.json")\n                meta_files[deploy_name] = json.loads(content)\n'
 TWINS: list[Twin] = [
+    Twin("decrypt remembers verified keys by salt", _EN, "    key = _derive_key(password, salt)\n    aesgcm = AESGCM(key)\n    return aesgcm.decrypt(nonce, ciphertext, None)", "    key = _VERIFIED.get(salt)\n    if key is None:\n        key = _derive_key(password, salt)\n    plaintext = AESGCM(key).decrypt(nonce, ciphertext, None)\n    _VERIFIED[salt] = key\n    return plaintext\n\n\n_VERIFIED: dict[bytes, bytes] = {}", "C33.R2"),
+    Twin("benign: key derivation memoised on (password, salt)", _EN, "def _derive_key(password: str, salt: bytes) -> bytes:", "@functools.lru_cache(maxsize=8)\ndef _derive_key(password: str, salt: bytes) -> bytes:", None),
+
     # ---- R1 breaking
     Twin("generic .yaml test before .secret.yaml", _AR, _SY + _Y, _Y + _SY, "C33.R1"),
     Twin("writer suffix typo", _AR, 'f"{name}.secret.yaml"', 'f"{name}.secrets.yaml"', "C33.R1"),
